@@ -7,7 +7,7 @@
   * `Buf`, `Op`, `step`, `exec`  — the buffer: level filter (`always_print`, `good ≡ info`, `head`
     never filtered), colour wrapper, sections (`with out:` … `flush_section(sort)`), `line_ended`
     concatenation (IndexError on an empty target list is data: `err`), batch (drops `head`/`sep`),
-    `v()`/`d()` with `write_now`, `write()`, `reset()`.
+    `v()`/`d()` with `write_now` (no write for a message the level drops; `v()` silent in JSON mode), `write()`, `reset()`.
   * `sections`, `outputOps`    — `output()` for an SSH-2 peer (or no peer: the error path) as a list of
     buffer operations; `render` runs them.
   * `renderClosed`             — the same text in closed form (proved equal in `Lemmas/Output.lean`).
@@ -33,7 +33,7 @@ structure Cfg where
   debug : Bool := false
   colors : Bool := false
   level : Nat := 0            -- `__level`: 0 = info, 1 = warn, 2 = fail
-  json : Bool := false        -- `aconf.json` (`is_json_output`)
+  json : Bool := false        -- `aconf.json` (`is_json_output`); `main()` copies it to `out.json`
   jsonIndent : Bool := false  -- `aconf.json_print_indent`
 deriving Repr, DecidableEq
 
@@ -139,14 +139,15 @@ def step (cfg : Cfg) (op : Op) (b : Buf) : Buf :=
   | .write => doWrite b
   | .reset => doReset b
   | .v t wn =>
-    if cfg.verbose || cfg.debug then
+    -- `if (self.verbose and not self.json) or self.debug:` … `if write_now and self.get_level('info') >= self.__level: self.write()`
+    if (cfg.verbose && !cfg.json) || cfg.debug then
       let b' := doPrint cfg .info t true false b
-      if wn then doWrite b' else b'
+      if wn && passes cfg.level .info false then doWrite b' else b'
     else b
   | .d t wn =>
     if cfg.debug then
       let b' := doPrint cfg .info t true false b
-      if wn then doWrite b' else b'
+      if wn && passes cfg.level .info false then doWrite b' else b'
     else b
 
 def stepG (cfg : Cfg) (b : Buf) (op : Op) : Buf := if b.err.isSome then b else step cfg op b
